@@ -259,4 +259,22 @@ def mk_body(spec):
         return s, raw
     if kind == "bytesio":
         return io.BytesIO(raw), raw
+    if kind == "notell":
+        return NoTellBody(raw), raw  # pipe-like: readable once, tell() fails, so its position cannot be recorded
     raise ValueError(kind)
+
+
+class NoTellBody:
+    """A file-like request body that behaves like the read end of a pipe: read() works, tell()/seek() raise OSError."""
+
+    def __init__(self, raw: bytes) -> None:
+        self._b = io.BytesIO(raw)
+
+    def read(self, n: int = -1) -> bytes:
+        return self._b.read(n)
+
+    def tell(self) -> int:
+        raise OSError(29, "Illegal seek")
+
+    def seek(self, *a):
+        raise OSError(29, "Illegal seek")
